@@ -360,6 +360,15 @@ def c05_case(draw, variant, max_records, max_steps):
             prog += draw(st.lists(ops, max_size=max(0, (max_steps - 5) // 5)))
             prog.append(c)
         case["program"] = prog
+    elif draw(st.integers(0, 3)) == 0:
+        # derive, observe the derived table, then come back to the table it was derived from:
+        # a derived lazy table shares buffers and offset arrays with its parent
+        parent = draw(st.integers(0, 3))
+        derive = dict(draw(ops_of_kind(fmt, "slice", "slice", "mask", "ilist")), src=parent)
+        observe_child = draw(st.sampled_from([{"op": "write", "src": -1}, {"op": "rows", "src": -1}, {"op": "tolist", "src": -1}]))
+        back = [dict(draw(ops_of_kind(fmt, "field", "rows", "tolist")), src=parent), {"op": "write", "src": parent}]
+        prog = draw(st.lists(ops, max_size=2)) + [derive, observe_child] + draw(st.lists(ops, max_size=1)) + back
+        case["program"] = prog
     else:
         case["program"] = draw(st.lists(ops, min_size=1, max_size=max_steps))
     if draw(st.booleans()):
